@@ -143,8 +143,6 @@ Definition tpl_run (ops : list xop) : list ires := xirun tabs0 [] ops.
 Definition tpl_tabs (ops : list xop) : tabs := fst (xiexec tabs0 [] ops).
 
 (* ---- hypotheses ---- *)
-Definition is_pos_inf (idx : word) : bool := f64_is_inf idx && negb (f64_sign idx).
-
 Definition rt_pre (s : spec) (xo : xop) : bool :=
   let nh := length (sp_heap s) in
   let na := length (sp_arrs s) in
@@ -154,10 +152,10 @@ Definition rt_pre (s : spec) (xo : xop) : bool :=
       match o with
       | OArrayNew _ d => N.of_nat (length d) <? TWO64              (* usize: len.saturating_mul(elem_size) is exact *)
       | OArrayGet a idx esz =>
-          arr_esz_ok s a esz && negb (esz =? 0) && negb (is_pos_inf idx)     (* +infinity: the template takes element 0 *)
+          arr_esz_ok s a esz && negb (esz =? 0)
       | OArraySet a idx src esz =>
-          arr_esz_ok s a esz && negb (esz =? 0) && negb (is_pos_inf idx) && (N.of_nat (length src) =? esz)
-      | OArrayLen a => match arr_get s a with Some (_, ar) => sa_esz ar =? 1 | None => true end   (* words, not elements *)
+          arr_esz_ok s a esz && negb (esz =? 0) && (N.of_nat (length src) =? esz)
+      | OArrayLen _ => true
       | _ => false
       end
   | XPrepend ew elem a | XAppend ew a elem =>
